@@ -1,0 +1,16 @@
+//go:build verif
+
+package db
+
+// Contracts for govc (comment-only; compiled only with -tags verif).
+//
+//@ spec import lib/regexp
+//
+// ---- C15: the pragma guard --------------------------------------------------------------------
+// IsBreakingPragma is true iff SOME pattern of BreakingPragmas matches (every key is visited).
+// Which SQL texts those patterns cover is decided by the language-inclusion obligations
+// db.BreakingPragmas#incl[...] generated from specs/C15.lang.
+//@ func IsBreakingPragma
+//@   pure
+//@   loop 1 invariant [none-matched] forall k string :: _visited[k] ==> !reMatch(BreakingPragmas[k], stmt)
+//@   ensures [iff-some-pattern] result == (exists k string :: k in BreakingPragmas && reMatch(BreakingPragmas[k], stmt))
